@@ -181,7 +181,8 @@ def comparable(name, base, src=""):
         return base
     if name.startswith("autoescape"):
         blob = base[1] + "".join(v for _, v in base[2])
-        if any(c in blob for c in "<>&\"") or "Markup(" in blob or "'" in base[1]:
+        inner = "".join(v[1:-1] for _, v in base[2] if v[:1] == "'")
+        if any(c in blob for c in "<>&\"") or "Markup(" in blob or "'" in base[1] + inner or "replace(''" in src:
             return None       # values whose text needs escaping: escaping is C15 / C16's subject
         return base
     if name == "linestmt" and ("\n" in base[1] or "replace(''" in src):
